@@ -13,6 +13,9 @@ EXTRA = {  # additional checks that are expected to see a change, besides the pr
     "C01-4b": ["C04", "C05"], "C02-4a": ["C09"], "C03-4a": ["C09"], "C03-4b": ["C17"], "C04-4a": ["C11"], "C05-4a": ["C09"], "C05-4b": ["C04"],
     "C08-4a": ["C02"], "C09-4a": ["C20"], "C09-4b": ["C17"], "C10-4a": ["C14", "C13"], "C14-4a": ["C12", "C13"], "C14-4b": ["C13"], "C16-4a": ["C12"],
     "C17-4a": ["C07"], "C20-4a": ["C12"],
+    "C01-5b": ["C05"], "C04-5b": ["C12"], "C05-5a": ["C09"], "C05-5b": ["C04"], "C08-5b": ["C03"], "C09-5a": ["C17"], "C09-5b": ["C12", "C13"],
+    "C10-5a": ["C16"], "C11-5a": ["C03"], "C11-5b": ["C05", "C04"], "C12-5b": ["C13"], "C13-5b": ["C16"], "C14-5b": ["C15"], "C16-5a": ["C15"],
+    "C16-5b": ["C12", "C13"], "C17-5a": ["C05"], "C20-5b": ["C03"],
     "C03-2b": ["C09"], "C05-2b": ["C09"], "C10-2a": ["C11", "C09"], "C05-2a": ["C04"], "C06-2b": ["C04"], "C01-2b": ["C07"],
 }
 
